@@ -144,7 +144,7 @@ def work(item):
         if ref[0] == "ok" and got[0] == "ok":
             div = "built house or run differs"
         elif ref[0] == "ok":
-            div = "original builds, variant fails: " + scripts.normalise_message(got[1])[:70]
+            div = "original builds, variant fails"
         elif got[0] == "ok":
             div = "original fails, variant builds"
         else:
@@ -179,7 +179,10 @@ def run():
     if core.SEED:
         import random
         random.Random(core.SEED).shuffle(order)
-    parts = scripts.pmap(work, [items[i] for i in order])
+    res = scripts.pmap(work, [items[i] for i in order])
+    parts = [None] * len(order)
+    for j, i in enumerate(order):      # merge in item order whatever the dispatch order was
+        parts[i] = res[j]
     found = {}
     for p in parts:
         for g, v in p.extra.pop("found").items():
